@@ -7,7 +7,7 @@ from collections import Counter, defaultdict
 from factlib import trace
 
 SCOPE = re.compile(
-    r"^(async_graphql::(http|request|types::upload|validation|context|schema|dynamic::(resolve|value_accessor|request|schema)|look_ahead|"
+    r"^(async_graphql::(http|request|types::(upload|external|id|json|string_number|any|maybe_undefined)|validation|context|schema|dynamic::(resolve|value_accessor|request|schema)|look_ahead|"
     r"registry::stringify_exec_doc|extensions::(mod|apollo_persisted_queries)|response|error)|async_graphql_value::|"
     r"async_graphql_parser::(parse|pos|types)|async_graphql_(axum|actix_web|poem|warp|rocket)::)")
 PANIC = re.compile(
